@@ -68,22 +68,21 @@ impl InkList {
 
     fn get_ordered_items(&self) -> Vec<(&InkListItem, &i32)> {
         let mut ordered: Vec<_> = self.items.iter().collect();
-        ordered.sort_by(|a, b| {
-            if a.1 == b.1 {
-                a.0.get_origin_name().cmp(&b.0.get_origin_name())
-            } else {
-                a.1.cmp(b.1)
-            }
-        });
+        // Items with equal values are ordered by origin name and then item name, so
+        // that the result never depends on the hash map's iteration order.
+        ordered.sort_by(|a, b| a.1.cmp(b.1).then_with(|| a.0.cmp(b.0)));
         ordered
     }
 
     pub fn get_max_item(&self) -> Option<(&InkListItem, i32)> {
         let mut max: Option<(&InkListItem, i32)> = None;
 
+        // Ties are broken by item (origin name, then item name) so that the result
+        // never depends on the hash map's iteration order.
         for (k, v) in &self.items {
-            if max.is_none() || *v > max.as_ref().unwrap().1 {
-                max = Some((k, *v));
+            match max {
+                Some((mk, mv)) if (mv, mk) >= (*v, k) => {}
+                _ => max = Some((k, *v)),
             }
         }
 
@@ -94,8 +93,9 @@ impl InkList {
         let mut min: Option<(&InkListItem, i32)> = None;
 
         for (k, v) in &self.items {
-            if min.is_none() || *v < min.as_ref().unwrap().1 {
-                min = Some((k, *v));
+            match min {
+                Some((mk, mv)) if (mv, mk) <= (*v, k) => {}
+                _ => min = Some((k, *v)),
             }
         }
 
